@@ -126,8 +126,9 @@ impl Recorder {
 
     /// C09 driver: commit-heavy sessions with restarts, re-typing, suffixed re-typing, wrapping punctuation.
     pub fn driver_store(&mut self, rounds: usize) {
-        let punct_lead = ["", "", "(", "\"", "'", "[", "*", "\"'"];
-        let punct_trail = ["", "", ")", "\"", "'", ".", "!", "?", ",", "'\"", "]", ":", ":)"];
+        // (incl. a quote with other punctuation between it and the word, on either side: `"(w)"`, `"w."`, `'[w]?'`)
+        let punct_lead = ["", "", "(", "\"", "'", "[", "*", "\"'", "\"(", "(\"", "'["];
+        let punct_trail = ["", "", ")", "\"", "'", ".", "!", "?", ",", "'\"", "]", ":", ":)", ".\"", ")\"", "\".", "]?'"];
         for round in 0..rounds {
             let smart = self.rng.below(2) == 0;
             let cfg = Cfg { layout: "phonetic".into(), psug: true, english: self.rng.below(2) == 0, smart, db: true, ..Default::default() };
@@ -438,6 +439,67 @@ impl Recorder {
     }
 }
 
+/// A plain inverse of the Avro table (one spelling per word; None when the word holds a character the table lacks).  The
+/// result is only ever used after the okkhor pattern of the spelling was checked against the word.
+pub fn romanise(word: &str) -> Option<String> {
+    romanise_mask(word, u64::MAX).map(|(s, _)| s)
+}
+/// ... every spelling that differs in where the inherent vowel is written (at most 64), for words whose plain spelling the
+/// pattern does not match.
+pub fn romanise_variants(word: &str) -> Vec<String> {
+    let n = match romanise_mask(word, u64::MAX) { Some((_, n)) => n.min(6), None => return Vec::new() };
+    (0..(1u64 << n)).rev().filter_map(|m| romanise_mask(word, m).map(|(s, _)| s)).collect()
+}
+/// `mask` bit k set = the k-th inherent vowel inside the word is written; returns the spelling and the number of such places.
+fn romanise_mask(word: &str, mask: u64) -> Option<(String, u32)> {
+    let cons = |c: char| -> Option<&'static str> {
+        Some(match c {
+            'ক' => "k", 'খ' => "kh", 'গ' => "g", 'ঘ' => "gh", 'ঙ' => "Ng", 'চ' => "c", 'ছ' => "ch", 'জ' => "j", 'ঝ' => "jh", 'ঞ' => "NG",
+            'ট' => "T", 'ঠ' => "Th", 'ড' => "D", 'ঢ' => "Dh", 'ণ' => "N", 'ত' => "t", 'থ' => "th", 'দ' => "d", 'ধ' => "dh", 'ন' => "n",
+            'প' => "p", 'ফ' => "f", 'ব' => "b", 'ভ' => "bh", 'ম' => "m", 'য' => "z", 'র' => "r", 'ল' => "l", 'শ' => "sh", 'ষ' => "Sh",
+            'স' => "s", 'হ' => "h", '\u{09DC}' => "R", '\u{09DD}' => "Rh", '\u{09DF}' => "y", _ => return None,
+        })
+    };
+    let other = |c: char| -> Option<&'static str> {
+        Some(match c {
+            'অ' => "o", 'আ' => "a", 'ই' => "i", 'ঈ' => "I", 'উ' => "u", 'ঊ' => "U", 'ঋ' => "rri", 'এ' => "e", 'ঐ' => "OI", 'ও' => "O", 'ঔ' => "OU",
+            'া' => "a", 'ি' => "i", 'ী' => "I", 'ু' => "u", 'ূ' => "U", 'ৃ' => "rri", 'ে' => "e", 'ৈ' => "OI", 'ো' => "O", 'ৌ' => "OU",
+            'ং' => "ng", 'ঃ' => ":", 'ঁ' => "^", 'ৎ' => "t``", _ => return None,
+        })
+    };
+    let cs: Vec<char> = word.chars().collect();
+    let mut out = String::new();
+    let mut i = 0;
+    let mut places = 0u32;
+    while i < cs.len() {
+        let c = cs[i];
+        if let Some(r) = cons(c) {
+            // the two conjuncts with a spelling of their own
+            if c == 'ক' && cs.get(i + 1) == Some(&'\u{09CD}') && cs.get(i + 2) == Some(&'ষ') {
+                out.push_str("kkh");
+                i += 3;
+            } else {
+                out.push_str(r);
+                i += 1;
+            }
+            match cs.get(i) {
+                Some('\u{09CD}') => { i += 1; }                          // hasanta: the next consonant joins
+                Some(n) if cons(*n).is_some() => {                        // inherent vowel inside the word
+                    if places >= 63 || mask & (1 << places) != 0 { out.push('o'); }
+                    places += 1;
+                }
+                _ => {}
+            }
+        } else if let Some(r) = other(c) {
+            out.push_str(r);
+            i += 1;
+        } else {
+            return None;
+        }
+    }
+    if out.is_empty() { None } else { Some((out, places)) }
+}
+
 /// The text corpus of the candidate driver.
 pub fn cands_corpus(or: &Oracles, tier_quick: bool, seed: u64) -> Vec<String> {
     let mut rng = Rng(seed | 1);
@@ -527,6 +589,73 @@ pub fn cands_corpus(or: &Oracles, tier_quick: bool, seed: u64) -> Vec<String> {
                 3 => out.push(format!("\"{}", n)),
                 4 => out.push(format!("{}.", n)),
                 _ => out.push(format!("[{}]?", n)),
+            }
+        }
+    }
+    // dictionary-guided spellings: words of dictionary.json written back in Latin letters by a plain inverse table and kept when
+    // the Avro pattern of the spelling really matches the word (okkhor regex oracle) - typed texts whose lists hold several
+    // dictionary hits at several distances.  Always included: every word a dictionary table lists MORE THAN ONCE (the inputs
+    // on which duplicate suppression has to work on the dictionary hits themselves).
+    {
+        let mut tables: Vec<&String> = or.dict.keys().collect();
+        tables.sort();
+        let mut dups: Vec<String> = Vec::new();
+        for t in &tables {
+            let mut count: std::collections::HashMap<&String, usize> = std::collections::HashMap::new();
+            for w in &or.dict[*t] {
+                *count.entry(w).or_insert(0) += 1;
+            }
+            dups.extend(count.into_iter().filter(|(_, n)| *n > 1).map(|(w, _)| w.clone()));
+        }
+        dups.sort();
+        for w in &dups {
+            if let Some(r) = romanise_variants(w).into_iter().find(|r| or.is_dict_match(r, w)) {
+                out.push(r.clone());
+                out.push(format!("({})", r));
+            }
+        }
+        let mut words: Vec<&String> = or.dict_words.iter().filter(|w| { let n = w.chars().count(); (2..=9).contains(&n) }).collect();
+        words.sort();
+        let step = if tier_quick { 997 } else { 41 };
+        for w in words.iter().skip((seed % step as u64) as usize).step_by(step) {
+            if let Some(r) = romanise(w).filter(|r| or.is_dict_match(r, w)) {
+                out.push(r);
+            }
+        }
+    }
+    // the joining rules look at the LAST character of the base candidate and the FIRST of the suffix: for every character a
+    // dictionary word ends in, a few words ending in it (spelt back and checked as above; a final chandrabindu / visarga /
+    // hasanta may stay unwritten) x suffix keys whose Bengali form starts with each vowel sign / with a consonant
+    {
+        let mut by_last: std::collections::BTreeMap<char, Vec<&String>> = std::collections::BTreeMap::new();
+        let mut words: Vec<&String> = or.dict_words.iter().filter(|w| { let n = w.chars().count(); (2..=6).contains(&n) }).collect();
+        words.sort();
+        for w in words {
+            by_last.entry(w.chars().last().unwrap()).or_default().push(w);
+        }
+        let mut first_kar: std::collections::BTreeMap<char, &String> = std::collections::BTreeMap::new();
+        for k in &kar_sfx {
+            first_kar.entry(or.suffix[*k].chars().next().unwrap()).or_insert(*k);
+        }
+        let per_class = if tier_quick { 2 } else { 12 };
+        for (_, ws) in by_last {
+            let mut got = 0;
+            for w in ws.iter().skip((seed % 7) as usize) {
+                let mut spellings = romanise_variants(w);
+                // the final sign may stay unwritten ("ga" matches গাঁ)
+                let trimmed: Vec<String> = spellings.iter().filter_map(|r| r.strip_suffix('^').or(r.strip_suffix(':')).map(|x| x.to_string())).collect();
+                spellings.extend(trimmed);
+                if let Some(r) = spellings.into_iter().rev().find(|r| r.len() >= 2 && r.chars().all(|c| c.is_ascii_alphabetic()) && or.is_dict_match(r, w)) {
+                    out.push(r.clone());
+                    for k in first_kar.values() {
+                        out.push(format!("{}{}", r, k));
+                    }
+                    out.push(format!("{}{}", r, non_kar_sfx[rng.below(non_kar_sfx.len())]));
+                    got += 1;
+                    if got >= per_class {
+                        break;
+                    }
+                }
             }
         }
     }
